@@ -544,5 +544,31 @@ func thorough() []Scope {
 	for s := 0; s < 2; s++ {
 		add(fmt.Sprintf("S-seed%d-dev2", s), fw.Deviations(2), seedGen(s))
 	}
+	// S-three: three policies at once from a reduced alphabet (union over three policies, mixed namespaces and directions)
+	var red []wm.NP
+	for i, p := range multiPolicyAlphabet() {
+		if i%9 == 0 {
+			red = append(red, p)
+		}
+	}
+	add("S-three", fw.Full, func(c *fw.Ctx) *wm.World {
+		i := c.Choose(len(red), "policy A")
+		j := c.Choose(len(red), "policy B")
+		k := c.Choose(len(red), "policy C")
+		if i > j || j > k {
+			c.Skip()
+		}
+		w := &wm.World{
+			NSs: []wm.NS{{Name: "ns1", Labels: map[string]string{"team": "a"}, HasObj: true}, {Name: "ns2", Labels: map[string]string{"team": "b"}, HasObj: true}},
+			WLs: []wm.Workload{
+				{Kind: "Deployment", NS: "ns1", Name: "w1", Labels: map[string]string{"app": "a"}, Ports: []wm.CPort{{Name: "http", Num: 80}}, Replicas: 1},
+				{Kind: "Deployment", NS: "ns2", Name: "w2", Labels: map[string]string{"app": "b"}, Ports: []wm.CPort{{Name: "http", Num: 85}}, Replicas: 2},
+				{Kind: "Deployment", NS: "", Name: "w3", Labels: map[string]string{"app": "a"}, Replicas: 1},
+			}}
+		a, b, d := red[i], red[j], red[k]
+		a.Name, b.Name, d.Name = "pa", "pb", "pc"
+		w.NPs = []wm.NP{a, b, d}
+		return w
+	})
 	return scopes
 }
